@@ -318,3 +318,29 @@ Proof.
   apply (burst32_zero j); try assumption.
   rewrite xors_length by exact Hl. exact H3.
 Qed.
+
+(* --- tightness: 32 is the limit --- *)
+
+(* xor with the 33-bit generator polynomial (bit 7 of one byte through bit 7 of the fifth: the
+   bytes 80 20 83 B8 ED) never changes crc32, wherever it is applied *)
+Lemma crc_update_app s l1 l2 : crc_update s (l1 ++ l2) = crc_update (crc_update s l1) l2.
+Proof. apply fold_left_app. Qed.
+
+Theorem crc32_burst33_undetected l1 a b c d e l2 :
+  crc32 (l1 ++ [N.lxor a 128; N.lxor b 32; N.lxor c 131; N.lxor d 184; N.lxor e 237] ++ l2)
+  = crc32 (l1 ++ [a; b; c; d; e] ++ l2).
+Proof.
+  unfold crc32. f_equal. rewrite !crc_update_app. f_equal.
+  set (s := crc_update crc_mask l1).
+  rewrite (crc_update_diff2 [a; b; c; d; e]
+             [N.lxor a 128; N.lxor b 32; N.lxor c 131; N.lxor d 184; N.lxor e 237] s s eq_refl).
+  rewrite N.lxor_nilpotent.
+  assert (X : forall x g, N.lxor x (N.lxor x g) = g)
+    by (intros x g; now rewrite <- N.lxor_assoc, N.lxor_nilpotent, N.lxor_0_l).
+  assert (G : xors [a; b; c; d; e] [N.lxor a 128; N.lxor b 32; N.lxor c 131; N.lxor d 184; N.lxor e 237]
+              = [128; 32; 131; 184; 237]).
+  { unfold xors. cbn [combine map fst snd]. rewrite !X. reflexivity. }
+  rewrite G.
+  replace (crc_update 0 [128; 32; 131; 184; 237]) with 0 by (vm_compute; reflexivity).
+  apply N.lxor_0_r.
+Qed.
